@@ -221,7 +221,7 @@ static int geti(const char *t, ll *out) {
 int main(void) {
   char *line, *tok[16]; int i;
   static char copy[4096];
-  unsigned watchdog = getenv("C11_WATCHDOG") ? (unsigned)atoi(getenv("C11_WATCHDOG")) : 15;
+  unsigned watchdog = getenv("C11_WATCHDOG") ? (unsigned)atoi(getenv("C11_WATCHDOG")) : 60;
   for (i = 0; i < NREG; i++) regs[i] = sraRgnCreate();
   while ((line = vh_readline())) {
     int n, d, s; ll v[8];
